@@ -93,16 +93,33 @@ Theorem C04_unique_merge_canonical_repaired :
   bounded (PS.union (s_elems a) (s_elems b)).
 Proof. exact merge_canon. Qed.
 
-(* hence both sides of a merge give the same skip degree, hash set, count and Size(true).
-   PARTIAL: about the repaired variant, and about one merge of two arbitrary well-formed sketches; the extension to
-   any grouping (merge trees of sketches, which follows from canonicity by induction) is not mechanised. *)
-Theorem C04_unique_merge_comm_repaired_partial :
+(* hence both sides of one merge give the same skip degree, hash set, count and Size(true) *)
+Theorem C04_unique_merge_comm_repaired :
   forall M a b orda ordb, (1 <= M)%Z -> wfs M a -> wfs M b ->
   enumerates orda (s_elems a) -> enumerates ordb (s_elems b) ->
   let ab := merge_sk M true a b ordb in let ba := merge_sk M true b a orda in
   s_skip ab = s_skip ba /\ PS.Equal (s_elems ab) (s_elems ba) /\ s_zero ab = s_zero ba /\ s_cnt ab = s_cnt ba /\
   s_size_as_is ab = s_size_as_is ba.
 Proof. exact unique_merge_comm. Qed.
+
+(* "... in any order and any grouping yields the same ... unique-value estimate ... including unique sets large
+   enough to trigger sketch thinning": any two merge trees whose leaves are permutations of the same well-formed
+   sketches, with any walk order of every right operand's table, give the same skip degree, hash set, zero flag,
+   itemsCount and Size(true) — for every size bound M >= 1 (the code's is 65536). Variant [true] of the model is the
+   code after the fix commits for F-C04a/F-C04b (the correspondence accepts either variant). *)
+Theorem C04_unique_merge_tree_perm :
+  forall M t1 t2 s1 s2, (1 <= M)%Z ->
+  Forall (wfs M) (leaves t1) -> Permutation (leaves t1) (leaves t2) ->
+  evals M t1 s1 -> evals M t2 s2 ->
+  s_skip s1 = s_skip s2 /\ PS.Equal (s_elems s1) (s_elems s2) /\ s_zero s1 = s_zero s2 /\ s_cnt s1 = s_cnt s2 /\
+  s_size_as_is s1 = s_size_as_is s2.
+Proof. exact unique_merge_tree_perm. Qed.
+
+(* the result of any merge tree is the canonical thinned sketch of the union of its leaves *)
+Theorem C04_unique_tree_canonical :
+  forall M t s, (1 <= M)%Z -> Forall (wfs M) (leaves t) -> evals M t s ->
+  canon M (lskip (leaves t)) (lunion (leaves t)) (lzero (leaves t)) s /\ bounded (lunion (leaves t)).
+Proof. exact tree_canon. Qed.
 
 (* non-vacuity: concrete leaves satisfying the guards, a tree and its mirror image with different draws *)
 Definition ex_l1 : ivalue := fst (apply_events ivalue0 [EValue (3#2) 2 7; ECount 1 9] [2%Z]).
@@ -127,3 +144,14 @@ Example C04_nonvacuous_unique :
   s_size_as_is (merge_sk uniques_max_size true wit_a wit_b [1; 3]%Z) = 4%Z /\
   s_size_as_is (merge_sk uniques_max_size true wit_b wit_a [2; 4]%Z) = 4%Z.
 Proof. split; [apply wit_wf|]. split; [apply wit_wf|]. split; vm_compute; reflexivity. Qed.
+
+(* non-vacuity of the tree theorem: a three-leaf tree over well-formed sketches evaluates *)
+Example C04_nonvacuous_unique_tree :
+  exists s, evals uniques_max_size (Node (Node (Leaf wit_a) (Leaf wit_b)) (Leaf wit_a)) s /\ s_size_as_is s = 4%Z.
+Proof.
+  eexists. split.
+  - eapply ev_node; [eapply ev_node; [apply ev_leaf|apply ev_leaf|]|apply ev_leaf|].
+    + apply unique_merge_comm_refuted_lemma_enum_b.
+    + apply unique_merge_comm_refuted_lemma_enum_a.
+  - vm_compute. reflexivity.
+Qed.
